@@ -33,6 +33,8 @@ Record suite := {
   step : St -> line -> St * list bytes;
   oracle : St -> St -> line -> list bytes -> list bytes;
   tags : St -> St -> line -> list bytes -> list bytes;
+  (* lets the state remember what the IMPLEMENTATION answered (before/after comparisons) *)
+  absorb : St -> line -> list bytes -> St;
 }.
 
 Fixpoint split_header (ls : list line) : list line * list line :=
@@ -57,7 +59,7 @@ Section Run.
                   else [bs "M" :: nat_to_dec idx :: mobs] in
         let ff := map (fun c => [bs "F"; nat_to_dec idx; c]) (oracle S st st' o iobs) in
         let tt := match tags S st st' o iobs with [] => [] | t => [bs "T" :: nat_to_dec idx :: t] end in
-        mm ++ ff ++ tt ++ run_ops st' (Datatypes.S idx) ls'
+        mm ++ ff ++ tt ++ run_ops (absorb S st' o iobs) (Datatypes.S idx) ls'
       else [[bs "X"; nat_to_dec idx; bs "bad-line-pair"]]
     | [] => []
     | _ :: [] => [[bs "X"; nat_to_dec idx; bs "dangling-line"]]
